@@ -424,6 +424,57 @@ def rpki_cases(rng, n):
             out.append(mk('rpki', with_rpki(rng, body), profile=rng.choice(['debug', 'debug', 'release'])))
     return out
 
+# ---------------------------------------------------------------- Global level: per-peer assignments
+def gmk(cls, ops): return {'cls': cls, 'kind': 'global', 'profile': 'debug', 'ops': ops + [[24]]}
+
+def peer_route(rng):
+    r = gen_route(rng, d=1)
+    return r[2:]
+
+def global_cases(rng, n):
+    out = []
+    for _ in range(n):
+        ops = []
+        # a small world: sets of three kinds, three statements, two policies
+        kinds = rng.sample(range(6), 3)
+        sets = [SETGEN[k](rng, 1) for k in kinds]
+        stmts = [(i, [[rng.choice(kinds), 1, rng.choice([0, 2])]] if rng.random() < 0.7 else [], rng.choice([[], [1], [2]]),
+                  gen_actions(rng, 0.15)) for i in (1, 2, 3)]
+        ops += setup(sets, stmts, [(1, [1, 2]), (2, [3] + ([1] if rng.random() < 0.3 else []))], [])
+        ops += [[20, 4, []], [20, 5, rng.choice([[], [[rng.choice([1, 2]), [rng.choice([1, 2, 3])]]]])]]
+        probes = [peer_route(rng) for _ in range(2)]
+        for _ in range(rng.randint(8, 20)):
+            x = rng.random()
+            peer = rng.choice([4, 5, 5, 7])
+            if x < 0.2: ops.append([21, peer, rng.choice([1, 1, 1, 0]), rng.choice([1, 2]), [rng.choice([1, 2, 3]) for _ in range(rng.choice([1, 1, 2]))]])
+            elif x < 0.3: ops.append([22, peer, rng.choice([1, 1, 0]), [rng.choice([1, 2])], int(rng.random() < 0.3)])
+            elif x < 0.4: ops.append([20, rng.choice([4, 6]), rng.choice([[], [[1, [rng.choice([1, 2, 3])]]]])])
+            elif x < 0.5: ops.append([6, rng.choice([1, 2]), int(rng.random() < 0.5), int(rng.random() < 0.5), [rng.choice([1, 2, 3])]])
+            elif x < 0.6: ops.append([5, rng.choice([1, 2, 3]), [rng.choice([1, 2, 3])]])
+            elif x < 0.68: ops.append([4, rng.choice([1, 2, 3]), int(rng.random() < 0.5), [], [], NOACT()])
+            elif x < 0.76: ops.append([3, rng.choice([1, 2, 3]), [gen_valcond(rng)], [], NOACT()])
+            elif x < 0.84:
+                k = rng.choice(kinds)
+                ops.append(rng.choice([[2, 1, SETGEN[k](rng, 1)], [1, 1, SETGEN[k](rng, 1)], [1, 0, SETGEN[k](rng, 1)]]))
+            elif x < 0.92: ops.append([7, int(rng.random() < 0.3), rng.randrange(2), rng.choice([1, 2]), [rng.choice([1, 2])]])
+            else: ops.append([8, rng.randrange(2), [rng.choice([1, 2])], int(rng.random() < 0.4)])
+            if rng.random() < 0.6: ops.append([23, rng.choice([4, 5, 7])] + rng.choice(probes))
+            if rng.random() < 0.1: ops.append([24])
+        out.append(gmk('global', ops))
+    # directed: a policy referenced ONLY by a peer's override must be protected, with everything below it
+    for kind in range(6):
+        st = SETGEN[kind](rng, 1)
+        ops = setup([st], [(1, [[kind, 1, 0]], [2], NOACT())], [(1, [1])], [])
+        ops += [[20, 4, []], [21, 4, 1, 1, [1]]]
+        r = peer_route(rng)
+        attack = [[6, 1, 0, 1, []], [6, 1, 0, 0, [1]], [6, 1, 1, 1, []], [5, 1, [1]], [4, 1, 1, [], [], NOACT()], [3, 1, [[6, 0, 1]], [], NOACT()],
+                  [2, 1, st], [2, 0, st], [1, 1, SETGEN[kind](rng, 1)], [1, 0, SETGEN[kind](rng, 1)]]
+        rng.shuffle(attack)
+        for a in attack: ops += [a, [23, 4] + r]
+        ops += [[24], [22, 4, 1, [1], 0], [23, 4] + r, [6, 1, 0, 1, []], [24]]
+        out.append(gmk('global_directed', ops))
+    return out
+
 def gen_cases(rng, tier):
     q = tier == 'quick'
     cases = []
@@ -436,6 +487,7 @@ def gen_cases(rng, tier):
     cases += api_cases(rng, 30 if q else 400)
     cases += med_cases(rng)
     cases += rpki_cases(rng, 60 if q else 600)
+    cases += global_cases(rng, 150 if q else 1500)
     cases += crud_directed(rng)
     if not q:
         for _ in range(20): cases += crud_directed(rng)[:6]
